@@ -4,6 +4,7 @@ package main
 // (E-must), who-may-call / who-may-touch (E-who), value tracing.
 
 import (
+	"strings"
 	"fmt"
 	"go/constant"
 	"go/token"
@@ -908,4 +909,79 @@ func (l *natLoop) cleanExits() []*ssa.BasicBlock {
 		}
 	}
 	return out
+}
+
+// ---------- digests ----------
+
+// sha1Operand: v is (a slice / conversion of) the SHA-1 of some value x, computed at instruction `site` of the
+// function v lives in: sha1.Sum(x) stored in a local array and sliced, or the result of a module-local helper that
+// returns such a digest of one of its parameters (infoHash(info), digest(data)); then x is the argument passed.
+func sha1Operand(v ssa.Value, d int) (x ssa.Value, site ssa.Instruction) {
+	v = strip(v)
+	if d > 3 || v == nil {
+		return nil, nil
+	}
+	switch y := v.(type) {
+	case *ssa.Slice:
+		al, ok := y.X.(*ssa.Alloc)
+		if !ok {
+			return nil, nil
+		}
+		for _, ref := range *al.Referrers() {
+			if st, ok := ref.(*ssa.Store); ok && st.Addr == ssa.Value(al) {
+				if sc, ok := st.Val.(*ssa.Call); ok && isStdCall(sc, "crypto/sha1", "", "Sum") {
+					return sc.Call.Args[0], sc
+				}
+			}
+		}
+	case *ssa.Call:
+		if isStdCall(y, "crypto/sha1", "", "Sum") {
+			return y.Call.Args[0], y
+		}
+		h := y.Call.StaticCallee()
+		if h == nil || h.Blocks == nil || y.Call.IsInvoke() || !strings.HasPrefix(funcPkgPath(h), modPath) {
+			return nil, nil
+		}
+		idx := -1
+		for _, ret := range returnsOf(h) {
+			res := retResults(ret)
+			if len(res) != 1 {
+				return nil, nil
+			}
+			x, _ := sha1Operand(res[0], d+1)
+			prm, ok := x.(*ssa.Parameter)
+			if !ok {
+				return nil, nil
+			}
+			k := -1
+			for i, pp := range h.Params {
+				if pp == prm {
+					k = i
+				}
+			}
+			if k < 0 || (idx >= 0 && idx != k) {
+				return nil, nil
+			}
+			idx = k
+		}
+		if idx >= 0 && idx < len(y.Call.Args) {
+			return y.Call.Args[idx], y
+		}
+	}
+	return nil, nil
+}
+
+// digestSites: every place in f where a SHA-1 is computed, directly or through such a helper, with its operand.
+func digestSites(f *ssa.Function) (sites []ssa.Instruction, operands []ssa.Value) {
+	allInstrs(f, func(in ssa.Instruction) {
+		c, ok := in.(*ssa.Call)
+		if !ok {
+			return
+		}
+		if x, site := sha1Operand(c, 0); x != nil && site == ssa.Instruction(c) {
+			sites = append(sites, c)
+			operands = append(operands, x)
+		}
+	})
+	return
 }
